@@ -286,3 +286,26 @@ Theorem C13_stream_leftover_refuted :
   stream_tar LeftoverRefused true (members_of ex_stream_members) = TarOk (NDir stream_root_meta [] ex_stream_members).
 Proof. exact stream_leftover_refuted_proof. Qed.
 Print Assumptions C13_stream_leftover_refuted.
+
+(* ---------------------------------------------------------------------------------------
+   A source that fails.  [tar_faulty v src] (Model/TarStream.v) is Tar() over a source whose Next()
+   calls return, in order, the entries of src -- a file (NextOk) or an error other than io.EOF
+   (NextErr: the walk could not lstat or list an entry, a damaged tar stream) -- and io.EOF after
+   them; v = FaultReported: the error reaches tar(), which returns it. *)
+
+(* Tar() == nil only if no Next() failed: a source fault is never turned into a shorter archive. *)
+Theorem C13_source_fault_reported : forall src t,
+  tar_faulty FaultReported src = TarOk t -> ~ In NextErr src.
+Proof. exact tar_faulty_reports_proof. Qed.
+Print Assumptions C13_source_fault_reported.
+
+(* What handing the error on is for: a source that turns its error into a normal end (FaultAsEOF)
+   makes Tar() return nil for root "t" with "a" alone -- "z", which sorts after the failing entry,
+   is gone --; the error reported gives TarError; without the fault both files are archived. *)
+Theorem C13_source_fault_swallowed_refuted :
+  tar_faulty FaultAsEOF ex_fault_src = TarOk (NDir ex_meta [] [([97], NFile ex_meta [] [1])])%N /\
+  tar_faulty FaultReported ex_fault_src = TarError /\
+  tar_faulty FaultReported (filter (fun r => match r with NextOk _ => true | NextErr => false end) ex_fault_src)
+    = TarOk (NDir ex_meta [] [([97], NFile ex_meta [] [1]); ([122], NFile ex_meta [] [])])%N.
+Proof. exact tar_faulty_refuted_proof. Qed.
+Print Assumptions C13_source_fault_swallowed_refuted.
